@@ -220,14 +220,30 @@ func BigIntToUint(value *big.Int) (uint64, error) {
 // float to other
 
 func FloatToBigDecimalFloat(value float64) (apd.Decimal, error) {
+	if math.IsNaN(value) {
+		return nanToBigDecimalFloat(value), nil
+	}
 	var d apd.Decimal
 	_, _, err := apd.BaseContext.SetString(&d, FloatToString(value))
 	return d, err
 }
 
 func FloatToPBigDecimalFloat(value float64) (*apd.Decimal, error) {
+	if math.IsNaN(value) {
+		d := nanToBigDecimalFloat(value)
+		return &d, nil
+	}
 	d, _, err := apd.NewFromString(FloatToString(value))
 	return d, err
+}
+
+// The text form of a NaN ("NaN") doesn't say whether it is signaling, so
+// going through text would turn every NaN into a quiet one.
+func nanToBigDecimalFloat(value float64) apd.Decimal {
+	if common.HasQuietNanBitSet64(value) {
+		return apd.Decimal{Form: apd.NaN}
+	}
+	return apd.Decimal{Form: apd.NaNSignaling}
 }
 
 func FloatToBigInt(value float64, maxBase2Exponent int) (*big.Int, error) {
